@@ -267,6 +267,9 @@ TEvent ==
      ELSE /\ UNCHANGED cvars
           /\ R.kind = "ChannelClosed" => G1(Closed(EP(R.chan, R.node)))
   /\ R.kind = "PaymentSent" => R.preimage_ok
+  \* a payment whose preimage this node has been given (update_fulfill_htlc delivered to it) is never
+  \* reported failed -- in particular not after a restart from stale state (C10 / C03 truthfulness)
+  /\ R.kind = "PaymentFailed" => G10(<<R.node, R.hash>> \notin fw.downFul)
 
 TProj ==
   /\ IsEvent("proj")
